@@ -154,6 +154,28 @@ wide_field!(CW4fr, W4fr, 4, "524358751751261904794477405081859658376905525005276
 wide_field!(CW4secp, W4secp, 4, "115792089237316195423570985008687907853269984665640564039457584007908834671663", "3");
 wide_field!(CW6fq, W6fq, 6, "4002409555221667393417789825735904156556882819939007885332058136124031650490837864442687629129015664037894272559787", "2");
 
+// ---- hand-written MontConfig implementations WITHOUT any override: they run the trait's DEFAULT add/sub/double/neg/
+//      mul_assign (no-carry CIOS or scratch-buffer branch by the computed flags), square_in_place (off-diagonal + doubling
+//      + diagonal + Montgomery reduction over MulBuffer), inverse, from/into_bigint, sum_of_products -- the very bodies the
+//      Verus units `MontConfig::*` are extracted from (derive(MontConfig) overrides most of them with generated code)
+macro_rules! hand_field {
+    ($cfg:ident, $ty:ident, $n:literal, $p:literal, $g:literal, $w:literal) => {
+        pub struct $cfg;
+        impl ark_ff::MontConfig<$n> for $cfg {
+            const MODULUS: ark_ff::BigInt<$n> = ark_ff::BigInt!($p);
+            const GENERATOR: ark_ff::Fp<MontBackend<Self, $n>, $n> = ark_ff::MontFp!($g);
+            const TWO_ADIC_ROOT_OF_UNITY: ark_ff::Fp<MontBackend<Self, $n>, $n> = ark_ff::MontFp!($w);
+        }
+        pub type $ty = ark_ff::Fp<MontBackend<$cfg, $n>, $n>;
+    };
+}
+hand_field!(CH2ns, H2ns, 2, "340282366920938463463374607431768211297", "5", "278152612286619921126407258624955093703");
+hand_field!(CH2sp, H2sp, 2, "42535295865117307932921825928971026423", "5", "42535295865117307932921825928971026422");
+hand_field!(CH2s2, H2s2, 2, "85070591730234615865843651857942052727", "5", "85070591730234615865843651857942052726");
+hand_field!(CH3ns, H3ns, 3, "6277101735386680763835789423207666416102355444464034512659", "2", "6277101735386680763835789423207666416102355444464034512658");
+hand_field!(CH4secp, H4secp, 4, "115792089237316195423570985008687907853269984665640564039457584007908834671663", "3", "115792089237316195423570985008687907853269984665640564039457584007908834671662");
+hand_field!(CH1, H1, 1, "18446744073709551557", "2", "2296021864060584341");
+
 // ---- toy pairing-friendly curves (embedding degree 4, instantiating the MNT4 model): exhaustive bilinearity checks (C06)
 //   A: y^2 = x^3 + 2x + 4 over F_241, #E = r = 257 (prime), trace -15: ate loop count -16 (negative), last chunk p - 15
 //   B: y^2 = x^3 +  x + 5 over F_1277, #E = 4 * 313, trace 26: ate loop count 25 = NAF(1,0,-1,0,0,1), last chunk 4p + 102
